@@ -39,7 +39,12 @@ type readerCfg struct {
 // Oracles evaluated here: totality (no panic, one of three outcomes), the fatal error is the
 // transport's, progress (>= 1 byte per non-fatal call, hence <= n+1 calls).
 func readAll(prop string, data []byte, mode int, errAt int, terr error, cfg readerCfg) (res []rdResult, ok bool) {
-	cr := &chunkReader{data: data, mode: mode, err: terr, errAt: errAt}
+	return readAllCut(prop, data, mode, 0, errAt, terr, cfg)
+}
+
+// readAllCut: mode 3 delivers the stream in two pieces cut at cutAt.
+func readAllCut(prop string, data []byte, mode, cutAt int, errAt int, terr error, cfg readerCfg) (res []rdResult, ok bool) {
+	cr := &chunkReader{data: data, mode: mode, cutAt: cutAt, err: terr, errAt: errAt}
 	rd := &frame.Reader{ByteReader: cr, DialectRW: cfg.drw, InKey: cfg.key}
 	if err := rd.Initialize(); err != nil {
 		dsim.Failf("reader-init", "%v", err)
@@ -251,6 +256,26 @@ func c05Body() func(h []dsim.Rec) {
 				return nil
 			}
 		}
+	}
+	// 1b. short streams: EVERY way of cutting the stream in two transport reads
+	if len(data) <= 420 {
+		for cut := 1; cut < len(data); cut++ {
+			res, ok := readAllCut("C05", data, 3, cut, len(data), io.EOF, cfg)
+			if !ok {
+				return nil
+			}
+			if len(res) != len(base) {
+				dsim.Failf("chunking-independence", "stream cut in two at offset %d gives %d results, in one piece %d; stream %s", cut, len(res), len(base), hexs(data))
+				return nil
+			}
+			for i, r := range res {
+				if d := describe(r); d != base[i] {
+					dsim.Failf("chunking-independence", "stream cut in two at offset %d: result %d is %q, in one piece %q; stream %s", cut, i, d, base[i], hexs(data))
+					return nil
+				}
+			}
+		}
+		count("cov:all-two-way-cuts")
 	}
 	nframes := 0
 	// 2. every returned frame corresponds exactly to the bytes consumed by its call
